@@ -72,6 +72,20 @@ CHECKS = {
         note=TRUST + "; 'identical overlap matrix' follows from equality of the basis functions in order + determinism, the integral code itself is C06; flattening lemma stated, not mechanised",
         technique="contract-based deductive verification (AST symbolic execution -> z3 VCs, generic-iteration loop rule, induction lemmas) + bounded random bases/orbitals on the real functions",
     ),
+    "C02": dict(
+        category="other",
+        text="Decided for all inputs from the current source: inverse tables (element symbols, bond types, FCHK run types through the writer's own header code, FCHK quadrupole permutation) by exhaustive evaluation; unpack(pack(A)) = A for every size n and symmetric A (z3 lemma over the C03 contract of _triangle_to_dense, row-major order of np.tril_indices checked to n = 40, the three writer sites and the reader calls matched in the AST); FCIDUMP index coverage for every norb (z3 over the loop bounds, triangle condition and index orders extracted from dump_one, load_one and set_four_index_element: every element of an 8-fold symmetric array lies in the orbit of a written record and the printed value belongs to that orbit); for every record the 12 text writers print: adjacent fields read by a white-space split are separated, fixed-column reader slices (PDB ATOM, WFN) hold whole writer fields, every factor applied to a printed value is a unit constant whose inverse the reader applies, no thousands separators. Bounded: dump -> load -> compare on generated objects of each format's domain (1..101 atoms quick / 1..12000 thorough, column-filling coordinates, all bond types, optional attributes, XYZ user columns, cube memory layouts, FCHK with all optional sections and run types) and on every corpus file converted to every format that accepts it. The value-level behaviour of the remaining reader code is only exercised by the bounded part, hence `other`. Open known findings: SDF touching columns (7), FCHK header columns (2), FCHK required-only object.",
+        design_ref="DESIGN.md 6/C02",
+        note="trusted: z3, numpy tril_indices beyond n=40, the reader-mode table (white space vs fixed columns), AST extraction of the FCIDUMP loop nest (fails closed); bounded part samples values",
+        technique="contracts on writer records and index maps generated from the AST (z3 lemmas for packing and FCIDUMP coverage, static separation/column/unit-factor obligations, exhaustive tables) + bounded dump/load comparison",
+    ),
+    "C15": dict(
+        category="other",
+        text="For every float field the 12 text writers print (format specs re-extracted from the source on every run) a rounding inequality decides that text -> float -> unit factor -> inverse unit factor -> text is the identity: values printed as stored are idempotent after one cycle, values behind a unit factor need 6.02 u B < 10^-d (fixed point, B = what the column holds) or 30.1 u < 0.5 10^-d (scientific); unit factors must be iodata.utils constants with the inverse operation in the reader; no thousands separators. The rounding lemma is a hand argument sampled on every run, not proved. Bounded: three save/reload generations of generated objects and of every corpus file converted to every format that accepts it; generation 2 must equal generation 1 bit for bit (sha256 over dtype/shape/bytes of all attributes) and file 3 must equal file 2 byte for byte. Open known finding: POSCAR prints 16 decimals behind a unit factor / matrix product and drifts in the last digit (6 obligations + 6 bounded groups).",
+        design_ref="DESIGN.md 6/C15",
+        note="trusted: correctly rounded float()/format(), the rounding lemma (sampled), readers apply no arithmetic besides unit factors (Molden/Molekel fixes, WFN/WFX scales, json: bounded only)",
+        technique="per-field stability contracts generated from the writers' format specs (rounding inequalities) + unit-factor inverse obligations + bounded three-generation cycles with bit/byte comparison",
+    ),
     "C03": dict(
         category="other",
         text="Proved for all inputs: fchk._triangle_to_dense unpacks the packed lower triangle to dense[i,j] = packed[max(max+1)/2+min] for every matrix size (loop invariant, z3 nonlinear integer arithmetic); the column slices of the PDB ATOM/HETATM parser are exactly the PDB v3.3 columns and CONECT serials are read from columns 7-11, 12-16, ... Finite enumeration of width classes (digits sampled): record-level readers of SDF, PDB, GRO, XYZ, cube, Gaussian-log matrices and FCIDUMP are fed with files produced by independent writers that follow the published layouts, every field crossing its width boundaries. Three open known findings (SDF whitespace split, GRO x-field columns). The free-text log parsers and the section state machines are not covered (listed under not_covered), hence `other`.",
